@@ -26,6 +26,7 @@ type Sim struct {
 	yielded  chan struct{}
 	Steps    int64
 	Failures []string // discipline violations, goroutine panics
+	Leaked   []string // goroutines still parked when the main goroutine had returned
 	Timeout  time.Duration
 	chans    map[uintptr]*chanInfo
 	clock    time.Duration // simulated time
@@ -97,6 +98,14 @@ func (s *Sim) Run(main func()) error {
 				}
 			}
 			if len(waiting) == 0 {
+				return nil
+			}
+			if s.gs[0].done {
+				// the main goroutine has returned: a Go program ends there,
+				// whatever other goroutines are still parked on (a helper
+				// waiting for requests that will never come is a leak, not a
+				// deadlock)
+				s.Leaked = waiting
 				return nil
 			}
 			// release the parked goroutines so they do not leak: not possible
